@@ -273,6 +273,30 @@ impl Check for C17 {
         let h = Holdings { keys: hk, preimages: pre, abs_max, rel_max };
         let mall = src.chance(1, 3);
         rep.desc = format!("{} | holdings keys={:?} preimages={} abs_max={:?} rel_max={:?} | {}", text, h.keys.iter().map(|(k, c)| format!("{}..{}:{}{}{}{}", &k[..k.len().min(12)], &k[k.len().saturating_sub(4)..], if c.ecdsa { "e" } else { "" }, if c.taproot.key_spend { "k" } else { "" }, match c.taproot.script_spend { TaprootAvailableLeaves::Any => "A", TaprootAvailableLeaves::None => "N", _ => "L" }, if c.taproot.sighash_default { "d" } else { "x" })).collect::<Vec<_>>(), h.preimages.len(), h.abs_max, h.rel_max, if mall { "mall" } else { "nonmall" });
+        // the public builder: a wildcard multipath key `.../<c;c'>/*` added through Assets::add is
+        // a key source for the parent path of each alternative, hence covers the held child
+        for k in &uniq {
+            if !k.contains("pub") || !src.chance(1, 3) {
+                continue;
+            }
+            let mp = crate::checks::c16::templatize(k, 1, 2, src);
+            if let (Ok(mpk), Ok(dk)) = (miniscript::DescriptorPublicKey::from_str(&mp), DK::from_str(k)) {
+                if !mpk.is_multipath() {
+                    continue;
+                }
+                let api = Assets::new().add(mpk);
+                if let Some(full) = dk.full_derivation_path() {
+                    let v: Vec<bitcoin::bip32::ChildNumber> = full.into_iter().cloned().collect();
+                    if !v.is_empty() {
+                        let want = ((dk.master_fingerprint(), DerivationPath::from(v[..v.len() - 1].to_vec())), CanSign::default());
+                        rep.class("assets-builder:multipath");
+                        if !api.keys.contains(&want) {
+                            return fail("assets-builder-misses-multipath-source", format!("Assets::new().add(`{}`) holds {} key sources, none is the parent path of `{}`", mp, api.keys.len(), k));
+                        }
+                    }
+                }
+            }
+        }
         let mut assets = to_assets(&h, &parent)?;
         // decoys: key sources that are NOT the key's own path nor its direct parent (two or more
         // levels above, or a sibling branch) give no signing capability for it
